@@ -173,4 +173,16 @@ example (p : Project) (bad : File) (hb : bad.parses = false) :
     analyze { p with files := bad :: p.files ++ [bad] } = analyze p :=
   C15_unparsable_isolated p _ rfl (by simp [List.filter_cons, hb])
 
+
+/-! ## `parse_message_from_content` -/
+
+/-- **C15 / parse_message_from_content** (after fix f278ab8): for every content string no slice is out of range or
+    inside a character, and the result is the character-level model's (`VP.parseMessage`, compared with the real
+    parser on every C11 / attrfuzz case) -/
+theorem C15_parse_message_never_panics (content : Str) :
+    parseMessageB content = some (VP.parseMessage content) := parseMessageB_refines content
+
+/-- the loop before the fix (`chars().enumerate()`: a character count used as a byte offset) panics on `"é"` -/
+theorem C15_old_message_loop_panics : parseMessageOldB cl!"min = 1 , message = \"é\"" = none := by decide +kernel
+
 end TG.C15
